@@ -695,8 +695,10 @@ theorem collect_ingOut_nodup {eng : Engine} {focus : String} {l : List Contrib} 
   rw [List.map_map]
   exact this.nodup hn
 
-/-- the pod is the one the analyzer adds for the ingress controller, by name and namespace -/
-def isIngressPod (p : Pod) : Bool := ingressPod.name == p.name && ingressPod.ns == p.ns
+/-- the pod is the one the analyzer adds for the ingress controller: name, namespace and `fake`
+flag, as `isPodToItself` compares them -/
+def isIngressPod (p : Pod) : Bool :=
+  ingressPod.name == p.name && ingressPod.ns == p.ns && ingressPod.fake == p.fake
 
 theorem samePeer_ingressPod : SamePeer ingressPod ingressPod :=
   ⟨rfl, rfl, rfl, rfl, by decide, by decide⟩
@@ -1202,10 +1204,14 @@ example (focus : String) : runList podA focus = runList podB focus :=
   runList_perm (List.Perm.swap _ _ _) (by decide) (by decide)
     ((build_ok_iff podA).mpr (by decide)) focus
 
-/-- a pod of that name alone in its workload (the report is the same in every order: the line
-`{ingress-controller} → rs TCP_80`, in spite of the deny-all policy — a correctness matter, not an
-order matter) -/
+/-- a pod of that name alone in its workload: it used to get the line
+`{ingress-controller} → rs TCP_80` in spite of the deny-all policy, because `isPodToItself` took it
+for the pod the analyzer adds; `isPodToItself` now compares the `FakePod` flags too, and the workload
+is `(blocked …)` (`#eval`), as the policy demands -/
 example : IngressWF [.pod p1, .svc sx, .ing ingX, .np denyAll] := by decide
+example : ingReport [.pod p1, .svc sx, .ing ingX, .np denyAll] =
+    some ([], ["ingress-controller-ns/rs[ReplicaSet]"]) := by decide
+example : isIngressPod p1 = false ∧ isIngressPod ingressPod = true := by decide
 
 /-- **3. a Namespace object `ingress-controller-ns`** changes the report (its labels are the labels
 of the ingress controller's namespace) but not its order independence: `DistinctKeys` makes it
